@@ -27,10 +27,11 @@ Hypothesis Hcls : cls_ok n cls.
 
 (* the branch that runs the search: n > 0 and m > 0.  What precedes the main loop either panics
    (whatever the fuel) or establishes the invariant. *)
-Lemma canon_search_init : 0 < n -> 0 < m ->
+Lemma canon_search_init_root : 0 < n -> 0 < m ->
   (forall fuel, canon_search fuel g cls = Panic) \/
   exists ps0 root, (forall fuel, canon_search fuel g cls = main_loop g n m fuel (init_state n m ps0) false) /\
-    refine g (erase cs0) = Some root /\ VPtop g n m clsf order0 root (init_state n m ps0) false.
+    refine g (erase cs0) = Some root /\ VPtop g n m clsf order0 root (init_state n m ps0) false /\
+    root = erase (p_cells ps0).
 Proof.
   intros Hn0 Hm0.
   assert (En : n =? 0 = false) by (apply Nat.eqb_neq; lia). assert (Em : m =? 0 = false) by (apply Nat.eqb_neq; lia).
@@ -52,7 +53,7 @@ Proof.
   pose proof E as E'. unfold refine_s in E'. cbn [p_cells] in E'.
   destruct (refine_loop_V g n m [] (repeat 0 m) _ (mkP cs0 0%Z v s) false ps0 HN0 HO0 HC0 E') as [_ HCl].
   set (root := erase (p_cells ps0)) in *.
-  exists ps0, root. split; [|split; [exact HRf|]].
+  exists ps0, root. split; [|split; [exact HRf|split; [|reflexivity]]].
   { intros fuel. unfold canon_search. fold n m cs0. rewrite En, Em. unfold expand_value. rewrite EE, E. reflexivity. }
   unfold init_state. split; [|split; [|split; [|split]]].
   - (* first layer *)
@@ -75,6 +76,15 @@ Proof.
     + exists []. split; [apply new_Rep|]. split; [intros x y []|intros gm x []].
   - intros _. split; [exact HCl|]. intros Hc. cbn in Hc. congruence.
   - reflexivity.
+Qed.
+
+Lemma canon_search_init : 0 < n -> 0 < m ->
+  (forall fuel, canon_search fuel g cls = Panic) \/
+  exists ps0 root, (forall fuel, canon_search fuel g cls = main_loop g n m fuel (init_state n m ps0) false) /\
+    refine g (erase cs0) = Some root /\ VPtop g n m clsf order0 root (init_state n m ps0) false.
+Proof.
+  intros Hn0 Hm0. destruct (canon_search_init_root Hn0 Hm0) as [HP|(ps0 & root & H1 & H2 & H3 & _)]; [left; exact HP|].
+  right. exists ps0, root. auto.
 Qed.
 
 Lemma search_dfs : forall fuel p o gs, 0 < n -> 0 < m -> canon_search fuel g cls = Ok (p, o, gs) ->
